@@ -256,3 +256,76 @@ Proof.
   destruct HU as [H1 H2].
   split; [exact Hp|]. split; [exact Hf|]. split; [exact Hcan|]. split; [exact H1|exact H2].
 Qed.
+
+(* ------------------------------------------------------------------ room-based modules from C15's RoomsProofs (unconditional) *)
+From Cspuz Require Import Codec.RoomsProofs.
+
+(* lits / norinori: any order of rooms and of cells within rooms *)
+Theorem rooms_url_roundtrip sw dw skip allow h w rs rs' body :
+  sw_comb sw = Rooms skip allow -> wrappers_consistent sw dw -> 1 <= h -> 1 <= w ->
+  valid_rooms h w rs -> canonical_rooms h w rs' -> rooms_equiv rs rs' ->
+  serialize_problem_cu no_custom (sw_comb sw) (rooms_to_pv rs) h w = Ok body ->
+  run_ser_sized no_custom sw h w (rooms_to_pv rs) = Ok (make_url default_prefix (sw_puzzle sw) h w body) /\
+  run_de no_custom dw (make_url default_prefix (sw_puzzle sw) h w body) = Ok (Some (sized dw h w (rooms_to_pv rs'))).
+Proof.
+  intros Hc Hcons Hh Hw Hv Hcan Heq Hser.
+  apply url_level_roundtrip_nl; auto; try lia.
+  - apply no_custom_cu_good.
+  - rewrite Hc. reflexivity.
+  - rewrite Hc in *. exact (rooms_roundtrip_any_order h w skip allow rs rs' body Hh Hw Hv Hcan Heq Hser).
+  - discriminate.
+Qed.
+
+Lemma vrooms_ser_k1 e vc skip allow data idx k s :
+  ser e (ValuedRooms vc skip allow) data idx = Ok (Some (k, s)) -> k = 1%nat.
+Proof.
+  simpl. unfold vrooms_ser. intros H. apply with_item_inv_pv in H as (l & v & _ & _ & H).
+  destruct v as [| | | |tl]; try discriminate.
+  destruct tl as [|d0 [|d1 [|? ?]]]; try discriminate.
+  destruct (py_items d0); try discriminate. destruct (py_items d1); try discriminate.
+  destruct (vr_sorted _ _) as [sorted|]; try discriminate. destruct sorted; try discriminate.
+  destruct (rooms_ser e skip _ 0) as [[[? ?]|]|]; try discriminate.
+  destruct (seq_ser _ _ _ 0) as [[[? ?]|]|]; try discriminate.
+  inversion H. reflexivity.
+Qed.
+
+(* heyawake's term on a partition given in canonical order (rooms by least cell, cells row-major) *)
+Theorem valued_rooms_body_roundtrip vc skip allow h w rs vs body :
+  wf (ValuedRooms vc skip allow) = true -> cell_comb vc = true -> 1 <= h -> 1 <= w ->
+  canonical_rooms h w rs -> length vs = length rs ->
+  serialize_problem_cu no_custom (ValuedRooms vc skip allow) (VTup [rooms_to_pv rs; VList vs]) h w = Ok body ->
+  deserialize_problem_cu no_custom (ValuedRooms vc skip allow) body h w = Ok (Some (VTup [rooms_to_pv rs; VList vs])).
+Proof.
+  intros Hwf Hcell Hh Hw Hcan Hlen Hser.
+  assert (Henv : env_ok (mk_env h w)) by (split; simpl; lia).
+  pose proof (roundtrip_all (mk_env h w) (ValuedRooms vc skip allow) Henv Hwf) as Hrt.
+  unfold serialize_problem_cu in Hser. rewrite cu_env_no_custom in Hser.
+  destruct (ser (mk_env h w) (ValuedRooms vc skip allow) (VList [VTup [rooms_to_pv rs; VList vs]]) 0) as [[[k s]|]|] eqn:Es;
+    try discriminate.
+  inversion Hser; subst s. clear Hser.
+  pose proof (vrooms_ser_k1 _ _ _ _ _ _ _ _ Es) as Hk. subst k.
+  assert (Hacc : accepts (mk_env h w) (ValuedRooms vc skip allow) [VTup [rooms_to_pv rs; VList vs]] 0).
+  { simpl. exists rs, vs. repeat split; auto; try apply Hcan. intros p. apply accepts_cell. exact Hcell. }
+  destruct (Hrt [VTup [rooms_to_pv rs; VList vs]] 0%nat 1%nat body [] Es Hacc I) as (items & Hde & Hf & Hle & Hex).
+  rewrite app_nil_r in Hde.
+  assert (Hl : length items = 1%nat) by (apply Hex; exact I).
+  destruct items as [|p0 [|p1 items']]; try discriminate. simpl in Hf. inversion Hf; subst p0.
+  unfold deserialize_problem_cu. rewrite cu_env_no_custom, Hde. reflexivity.
+Qed.
+
+Theorem valued_rooms_url_roundtrip sw dw vc skip allow h w rs vs body :
+  sw_comb sw = ValuedRooms vc skip allow -> wrappers_consistent sw dw ->
+  wf (ValuedRooms vc skip allow) = true -> cell_comb vc = true -> nl_free vc = true -> 1 <= h -> 1 <= w ->
+  canonical_rooms h w rs -> length vs = length rs ->
+  serialize_problem_cu no_custom (sw_comb sw) (VTup [rooms_to_pv rs; VList vs]) h w = Ok body ->
+  run_ser_sized no_custom sw h w (VTup [rooms_to_pv rs; VList vs]) = Ok (make_url default_prefix (sw_puzzle sw) h w body) /\
+  run_de no_custom dw (make_url default_prefix (sw_puzzle sw) h w body)
+  = Ok (Some (sized dw h w (VTup [rooms_to_pv rs; VList vs]))).
+Proof.
+  intros Hc Hcons Hwf Hcell Hnl Hh Hw Hcan Hlen Hser.
+  apply url_level_roundtrip_nl; auto; try lia.
+  - apply no_custom_cu_good.
+  - rewrite Hc. exact Hnl.
+  - rewrite Hc in *. apply valued_rooms_body_roundtrip; auto.
+  - discriminate.
+Qed.
